@@ -474,13 +474,19 @@ class EdgeQLSourceGenerator(codegen.SourceGenerator):
         self.write("'")
 
     def visit_UnaryOp(self, node: qlast.UnaryOp) -> None:
+        # Like binary operations, print unary operations fully
+        # parenthesized: `(-a) ^ b` must not come back as `-a ^ b`,
+        # `(not a) is T` as `not a is T`, `(-1) { x }` as `-1 { x }`
+        # or `+(+a)` as `++a`.
         op = str(node.op).upper()
+        self.write('(')
         self.write(op)
         if op.isalnum():
             self.write(' (')
         self.visit(node.operand)
         if op.isalnum():
             self.write(')')
+        self.write(')')
 
     def visit_BinOp(self, node: qlast.BinOp) -> None:
         self.write('(')
@@ -591,8 +597,15 @@ class EdgeQLSourceGenerator(codegen.SourceGenerator):
 
     def visit_Shape(self, node: qlast.Shape) -> None:
         if node.expr is not None:
-            self.visit(node.expr)
-            self.write(' ')
+            if isinstance(node.expr, qlast.TypeCast):
+                # `(<T>x) { y }` is not `<T>x { y }`
+                self.write('(')
+                self.visit(node.expr)
+                self.write(')')
+            else:
+                self.visit(node.expr)
+            if node.elements:
+                self.write(' ')
         self._visit_shape(node.elements)
 
     def _visit_shape(self, shape: Sequence[qlast.ShapeElement]) -> None:
